@@ -114,7 +114,7 @@ func (fr *Frame) callInvoke(ins *ssa.Call, c *ssa.CallCommon, st *State) []Val {
 		args = append(args, fr.val(a))
 	}
 	name := c.Method.FullName()
-	fc := ex.eng.externs[name]
+	fc := ex.externFor(name)
 	if fc == nil {
 		// (error).Error and similar value-only interface methods
 		sig := c.Signature()
@@ -268,7 +268,7 @@ func (fr *Frame) callStatic(ins *ssa.Call, fn *ssa.Function, bindings []Val, arg
 		recv = &args[0]
 		rest = args[1:]
 	}
-	fc := ex.eng.externs[fo.FullName()]
+	fc := ex.externFor(fo.FullName())
 	if fc == nil {
 		sig := fo.Type().(*types.Signature)
 		if recv == nil && valueOnlySig(sig) {
